@@ -120,6 +120,7 @@ class SmallBufferAllocator {
     auto& lock = globals.backingStoreLock;
     DISPENSO_VERIF_SBA_POINT("sba.bytes.cas", &lock);
     while (!lock.compare_exchange_weak(allocId, 1, std::memory_order_acquire)) {
+      allocId = 0;
       DISPENSO_VERIF_SBA_POINT("sba.bytes.cas", &lock);
     }
     DISPENSO_VERIF_SBA_POINT("sba.bytes.size", &lock);
